@@ -686,6 +686,25 @@ func (c *cliFront) plan(h *heapRun, o *obj, st Step) (*cliCall, string) {
 			ret["out"], ret["occur"], ret["total"] = out, occ, []int{}
 			return true
 		}}, ""
+	case "NbVariableSites":
+		// a line of the summary printed by `goalign stats`
+		if !needsAlign() {
+			return nil, "bag"
+		}
+		return &cliCall{argv: []string{"stats"}, query: true, ret: func(stdout, stderr string, ret map[string]interface{}) bool {
+			for _, l := range strings.Split(stdout, "\n") {
+				f := strings.Split(l, "\t")
+				if len(f) == 2 && f[0] == "variable sites" {
+					v, err := strconv.Atoi(f[1])
+					if err != nil {
+						return false
+					}
+					ret["v"] = v
+					return true
+				}
+			}
+			return false
+		}}, ""
 	case "AvgAllelesPerSite":
 		if !needsAlign() {
 			return nil, "bag"
